@@ -115,7 +115,7 @@ def ref_step(spec, op, rstack, rmemo, sim_top_kind_class=None):
             if st[-1] == "mark":
                 raise RefErr("top of stack is a MARK", "kind")
     top = st[-1] if st else None
-    npop = dm + 1 if sp["mark"] else sp["pop"]
+    npop = (dm + 1 + (1 if sp.get("pop_below") else 0)) if sp["mark"] else sp["pop"]
     if npop:
         del st[len(st) - npop:]
     mem = list(rmemo)
